@@ -648,6 +648,11 @@ def _sym_scatter(arr, idx, value):
         n = arr.vals.shape[0]
         for i, v in zip(ids, vs):
             v = wrap_elem(v.item() if isinstance(v, _np.generic) else v, arr.dtype)
+            if isinstance(i, SV) and (isinstance(v, XorSet) or (arr.dtype != bool and isinstance(v, SV))):
+                # symbolic value at a symbolic position of a non-boolean array: concretise the position (fork).
+                # Keeps cells free of If(pos == c, v, old) chains, so that the xor-accumulate expansion of run-length
+                # arrays still cancels syntactically (a ^ a) instead of needing a bit-level encoding.
+                i = int(i)
             if isinstance(i, SV):
                 inb = mk(simp(z3.And(i.t >= -n, i.t < n)))
                 if not (is_conc(inb) and inb) and not ENGINE.branch_term(TB(inb)):
